@@ -942,6 +942,9 @@ impl HandlerRunner {
             ops.push(format!("hev {} {}", self.nodes[ni].idx, ev));
             replies.push(self.drain(ni, out, stats));
         }
+        // flags describing the delivered datagram only apply to the reaction to it, not to what
+        // timers do while time passes afterwards
+        self.cur_wru_foreign = false;
         for &dt in dts {
             if dt == 0 {
                 continue;
